@@ -92,5 +92,6 @@ MaximalCliques(N, U) == {S \in SUBSET N : S # {} /\ IsClique(U, S) /\
 UAcyclic(N, U) ==   \* forest: every connected component with k nodes has k-1 edges
     \A n \in N : LET C == UReach(U, {n}) IN Cardinality({e \in U : e \subseteq C}) = Cardinality(C) - 1
 
-SetToSeq(S) == CHOOSE s \in [1..Cardinality(S) -> S] : \A i, j \in 1..Cardinality(S) : i # j => s[i] # s[j]
+RECURSIVE SetToSeq(_)
+SetToSeq(S) == IF S = {} THEN <<>> ELSE LET x == CHOOSE x \in S : TRUE IN <<x>> \o SetToSeq(S \ {x})
 =============================================================================
